@@ -40,6 +40,28 @@ from crosshair.statespace import CallAnalysis, RootNode, VerificationStatus  # n
 from crosshair.util import IgnoreAttempt, NotDeterministic, UnexploredPath  # noqa: E402
 
 
+_STUB_NAMES = ("_File", "_Ctx", "FakeAiofiles", "FakeJson", "SyncOs", "_FakeOs", "_FakePath", "FakeWriter", "FakeBrokerClient", "RecTransport",
+               "SuspendingTransport", "LifeTransport", "DuckReader", "FakeClock", "StubAV", "Token", "SymNode", "SymChild", "ShellMutableMap")
+_REPO_SRC = os.path.join(os.environ.get("VERIF_REPO", "/repo"), "src") + os.sep
+
+
+def _origin(e):
+    """'escaped' if the exception was raised by the code under test (innermost frame in /repo/src) and
+    is not about one of our stubs lacking something; otherwise 'harness' (reported as inconclusive)."""
+    tb = e.__traceback__
+    last = None
+    while tb is not None:
+        last = tb
+        tb = tb.tb_next
+    if last is None:
+        return "harness"
+    fn = last.tb_frame.f_code.co_filename
+    text = str(e)
+    if fn.startswith(_REPO_SRC) and not any(nm in text for nm in _STUB_NAMES):
+        return "escaped"
+    return "harness"
+
+
 def run_concrete(fn, witness, part=None):
     """Run the harness function on concrete values. Returns ('ok', outcome) | ('reject',) |
     ('violation', key, msg) | ('error', text)."""
@@ -52,7 +74,9 @@ def run_concrete(fn, witness, part=None):
         return ("violation", v.key, v.msg)
     except asyncio.CancelledError as e:  # BaseException in 3.8+
         return ("error", "CancelledError escaped harness: %r" % (e,))
-    except Exception as e:  # harness bug or unexpected
+    except Exception as e:  # harness bug, or an exception of the code under test that the harness did not expect
+        if _origin(e) == "escaped":
+            return ("violation", "escaped:%s" % type(e).__name__, str(e)[:200])
         return ("error", "%s: %s" % (type(e).__name__, str(e)[:200]))
     return ("ok", jsonable(out))
 
@@ -103,7 +127,7 @@ def explore(fn, part=None, *, budget=600.0, per_path=30.0, max_failures=8, max_s
                 except Exception as e:
                     kind = "violation"
                     tb = traceback.format_exc(limit=-6)
-                    payload = ("harness:%s" % type(e).__name__, "%s\n%s" % (str(e)[:200], tb[-1500:]))
+                    payload = ("%s:%s" % (_origin(e), type(e).__name__), "%s\n%s" % (str(e)[:200], tb[-1500:]))
                 res["paths"] += 1
                 if kind == "reject":
                     res["rejected"] += 1
